@@ -290,6 +290,13 @@ func RemProp(ctx *Context, s State, id string, prop string) (bool, error) {
 	return s.Rem(ctx, genPropId(id, prop))
 }
 
+// propertyOf reports whether the fact is a property (in fact form) of
+// the given id.
+func propertyOf(fact map[string]interface{}, id string) bool {
+	is, target, _, _, err := parseProp(fact)
+	return err == nil && is && target == id
+}
+
 // dependsOn reports whether the given fact literally names the given
 // id in its 'deleteWith' property.
 //
